@@ -5,6 +5,7 @@ From Coq Require Import String.
 From PS Require Import Base.Bytes Base.Result Model.Converter Model.Command Model.Ctor Model.InitCdb Model.CorrUtil.
 From PS Require Import Proofs.Codec Proofs.Layout Proofs.CtorSound Proofs.CdbSpec.
 From PS Require Import Spec.CdbFormats Gen.Tables Gen.Ctors Properties.C01.
+From PS Require Gen.Misc.
 Open Scope string_scope.
 
 (* every class's own mask table is a well-formed layout of a CDB of the standard's length
@@ -77,3 +78,7 @@ Proof.
   - apply zeros_length.
   - apply bytes_ok_zeros.
 Qed.
+
+(* the base class all commands share is exactly the modelled text and carries no state of its own (see C01) *)
+Theorem C02_command_base_is_the_modelled_text : Gen.Misc.command_base_unknown = [].
+Proof. vm_compute. reflexivity. Qed.
